@@ -121,7 +121,7 @@ class EOFBootstrapper(_BaseBootstrapper, EOF):
         # NOTE: we use scores as they have typically a lower dimensionality than components
         model_scores = model.data["scores"]
         corr = (
-            (bst_scores * model_scores).mean(sample_name)
+            (bst_scores.conj() * model_scores).mean(sample_name)
             / bst_scores.std(sample_name)
             / model_scores.std(sample_name)
         )
